@@ -107,11 +107,13 @@ def run(L, tier, only=None):
     L.ex.path_budget = 12000
     ops = [o for o in OPCODES if o != "Resolve"]
     quick = tier == "quick"
-    for op in ops:
+    arm_ops = ops if not quick else ["Nop", "Call", "Ret", "JumpIfNot", "Do", "Loop", "Break", "CaseOf", "Load", "Store", "InitLocal", "LoadLocal", "NativeCall"]
+    for op in arm_ops:
         if not only or op in only or "arms" in only:
             L.lemma("C15 recording, arm " + op, recording_lemma(opcode=op))
-    natives = [("load_core", w) for w in ["dup", "drop", "swap", "rot", "over", "I", "nth", "depth"]] + [("arith::load", "+")] + \
-              [("bitstr_ext::load", w) for w in ([] if quick else ["bits", "seek"])] + [(None, h) for h in ["vec_builder_begin", "vec_builder_end", "foreach_init", "foreach_next"]]
+    natives = [("load_core", w) for w in (["dup", "drop", "swap", "rot", "over", "I", "nth", "depth"] if not quick else ["dup", "swap", "I", "nth"])] + [("arith::load", "+")] + \
+              [("bitstr_ext::load", w) for w in ([] if quick else ["bits", "seek"])] + \
+              [(None, h) for h in (["vec_builder_begin", "vec_builder_end", "foreach_init", "foreach_next"] if not quick else ["vec_builder_begin", "foreach_next"])]
     for nat in natives:
         if not only or nat[1] in only or "natives" in only:
             L.lemma("C15 recording, native " + nat[1], recording_lemma(native=nat))
